@@ -47,6 +47,12 @@ FIXED_DOUBLES = [
     "3.141592653589793", "2.718281828459045", "6.02214076e23", "1.602176634e-19", "299792458",
     "4.9406564584124654e-324", "1e-320", "2.2250738585072011e-308", "17976931348623157e292",
     "100000000000000000000000000000000000000", "0.000000000000000000000000000001",
+    # integer-valued doubles around the limits of the machine integer types (an integer fast path
+    # in a printer is a classic place for saturation or truncation)
+    "9223372036854774784", "9223372036854777856", "9300000000000000000", "9500000000000000000",
+    "9999999999999999000", "10000000000000000000", "18446744073709549568", "18446744073709555712",
+    "2147483647", "2147483648", "4294967295", "4294967296", "-2147483649", "-9223372036854777856",
+    "-9500000000000000000", "340282366920938463463374607431768211456", "1e19", "1.8e19", "-1e19",
 ]
 
 
